@@ -1,3 +1,26 @@
+def kahn_flags(st, role="unvisited"):
+    """The loop-carried `unvisited` flags of kahn mentioned on the path (the variable is identified by its role in the
+    recognised loop, loop_specs.KAHN_ROLES, not by its name)."""
+    import loop_specs
+    wanted = {roles[role].t for roles in loop_specs.KAHN_ROLES.values() if isinstance(roles.get(role), VSeq)}
+    out = set()
+
+    def walk_t(t):
+        if isinstance(t, tuple):
+            if t in wanted:
+                out.add(t)
+            for x in t:
+                walk_t(x)
+        elif isinstance(t, Poly):
+            for a in t.atoms():
+                walk_t(a)
+    for k, p in st.lin.facts:
+        walk_t(p)
+    for t in st.bnd:
+        walk_t(t)
+    return out
+
+
 """The oracle: declared result shapes (ENS), acceptance conditions (ACC) and rejection
 conditions (REJ) of the public operations, written from the property statements and the crate
 documentation — never from the implementation's output.  Checked on every symbolic outcome of
@@ -1431,7 +1454,8 @@ def native_functor_guard(c, a, st, v):
         h = hyp(f)
         nodes_t, adj = h.f["nodes"].t, h.f["adjacency"].t
         conds = [("eq", t_len(q0), 0)]
-        leaves = loopvar_leaves(st, "lax::functor::traits::map_operations", "result")
+        # the accumulated diagram of the image-accumulation loop, whatever the local is called
+        leaves = loopvar_leaves(st, "lax::functor::traits::map_operations", None)
         for leg in ("sources", "targets"):
             for lf in leaves:
                 if lf[1][-1] == leg and len(lf[1]) == 3:
@@ -1508,7 +1532,7 @@ def loopvar_leaves(st, fn_suffix, var):
 
     def visit(t):
         if len(t) == 2 and t[0] == "v" and isinstance(t[1], tuple) and t[1] and t[1][0] == "loopvar" \
-                and isinstance(t[1][1], tuple) and t[1][1][0].endswith(fn_suffix) and t[1][1][-1] == var:
+                and isinstance(t[1][1], tuple) and t[1][1][0].endswith(fn_suffix) and (var is None or t[1][1][-1] == var):
             out.add(t)
     _walk_terms(st, visit)
     return sorted(out, key=repr)
